@@ -129,3 +129,91 @@ def stream_emissions(ds, host, field=None):
         return ok and kept and init_ok and rf, "unfold state fields read %s%s; first state is self unmodified: %s; carried to the next step unchanged: %s" % (
             sorted(flds), (" (its `%s` field: %s)" % (field, rf)) if field else "", init_ok, kept)
     return {"form": "unfold", "body": g, "items": [(b, item) for _g, b, item, _n in found], "state_origin": origin}
+
+
+# --------------------------------------------------------------------------- callables handed to a (generic) helper
+# `helper::<T>(|v| visit(v))`: the helper is inlined into its caller, but the closure written inside the helper stays
+# one shared (generic) body that receives the caller's closure as a captured variable and invokes it through a
+# combinator (`r.and_then(visit)`) or directly (`visit(v)`).  These two functions answer "which closure does this
+# operand denote" and "which value does this function hand to that closure" (candidates for lib.py).
+HANDS_OK_PAYLOAD = r"(Result::<T, E>|Option::<T>)::(and_then|map)$"
+INVOKES = r"ops::FnOnce::call_once$|ops::FnMut::call_mut$|ops::Fn::call$"
+
+
+def closure_sites(scope, g):
+    """[(parent Fn, aggregate statement)] — live sites among the functions `scope` that build closure g."""
+    out = []
+    for par in scope:
+        live = par.reachable(0)
+        for b, i, st in par.stmts():
+            rv = st["rv"]
+            if rv["rv"] == "agg" and rv.get("def") == g.raw["id"] and b in live:
+                out.append((par, st))
+    return out
+
+
+def closure_denoted(scope, fn, op, depth=0):
+    """The closure Fn that operand `op` of fn holds, or None: through plain moves of single-definition locals, and —
+    when fn is itself a closure and op is one of its captured variables — through the operand captured at fn's
+    (single) aggregate site in one of the functions `scope`."""
+    if depth > 8 or op.get("k") not in ("copy", "move"):
+        return None
+    l, proj = op["pl"]["l"], op["pl"]["p"]
+    if l == 1 and fn.raw["kind"] == "Closure" and len(proj) == 1 and isinstance(proj[0], dict) and "f" in proj[0]:
+        sites = closure_sites(scope, fn)
+        if len(sites) != 1 or proj[0]["f"] >= len(sites[0][1]["rv"]["ops"]):
+            return None
+        return closure_denoted(scope, sites[0][0], sites[0][1]["rv"]["ops"][proj[0]["f"]], depth + 1)
+    if proj:
+        return None
+    live = fn.reachable(0)
+    dd = [d for d in fn.defs().get(l, []) if d[0] in live and not fn.blocks[d[0]]["cleanup"]]
+    if len(dd) != 1 or dd[0][1] != "assign" or dd[0][2]["pl"]["p"]:
+        return None
+    rv = dd[0][2]["rv"]
+    if rv["rv"] == "use":
+        return closure_denoted(scope, fn, rv["op"], depth + 1)
+    if rv["rv"] == "agg" and rv.get("agg") == "closure":
+        return fn.facts.F.get(rv.get("def"))
+    return None
+
+
+def handoffs(scope, g, callable_fn):
+    """Live calls of g that hand a value to the closure `callable_fn` (held in a local or in a captured variable of g):
+    [(bb, term, operands the closure's argument comes from)] — `r.and_then(f)` / `r.map(f)` hand the Ok/Some payload
+    of r (lib_c10.ok_sources), `f(v)` hands v.  A call that passes the closure to anything else is returned with None
+    instead of the operands: the caller cannot tell what the closure is given."""
+    from .lib_c10 import ok_sources
+    import re
+    out = []
+    for bb, t in g.live_calls():
+        for ai, a in enumerate(t["args"]):
+            if closure_denoted(scope, g, a) is not callable_fn:
+                continue
+            c = t.get("callee") or ""
+            if re.search(HANDS_OK_PAYLOAD, c) and ai == 1 and operand_local(t["args"][0]) is not None and not t["args"][0]["pl"]["p"]:
+                out.append((bb, t, ok_sources(g, operand_local(t["args"][0]))))
+            elif re.search(INVOKES, c) and ai == 0 and len(t["args"]) == 2:
+                tup = _single_agg(g, t["args"][1], "tuple")
+                out.append((bb, t, [tup["rv"]["ops"][0]] if tup is not None and len(tup["rv"]["ops"]) == 1 else None))
+            else:
+                out.append((bb, t, None))
+    return out
+
+
+def precise_operands(fn, op, transparent=()):
+    """The values an operand may hold, as operands to slice: lib_c01.sources follows multi-definition locals and enum
+    wrappers built in fn variant-precisely (the Ok payload of `helper().await?` spliced from an async helper is the
+    helper's `Ok(Some(data))`, never its sibling `Err(ctor(..))`), so a flow-insensitive slice started at each answer
+    does not pick up the other variants' construction.  Each source is returned as the whole local at its root (a call
+    result / a parameter / a local the walk stops at); anything else (a constant, an aggregate) gives the operand back."""
+    from .lib_c01 import sources
+    out = []
+    for p in sources(fn, op, transparent=transparent):
+        if p.root[0] in ("call", "param", "local"):
+            o = {"k": "copy", "pl": {"l": p.root[1], "p": []}}
+        else:
+            return [op]
+        if o not in out:
+            out.append(o)
+    return out or [op]
